@@ -230,7 +230,12 @@ def run_ghist(env, c):
     """histories: external modification of the edited file, writes to other paths, edits, plain and forced writes of the own file.
     The guard state must only be refreshed by a write of the file itself."""
     d = env.fresh()
-    runner.write_file(d, "f", b"l1\nl2\n")
+    if c.get("link"):
+        # the edited path is a symbolic link: the guard is about the file it names (its times, not the link's own)
+        runner.write_file(d, "real", b"l1\nl2\n")
+        os.symlink("real", os.path.join(d, "f"))
+    else:
+        runner.write_file(d, "f", b"l1\nl2\n")
     os.utime(os.path.join(d, "f"), (1000000000, 1000000000))
     text = [b"l1", b"l2"]
     disk = b"l1\nl2\n"
@@ -304,7 +309,7 @@ def run_ghist(env, c):
         else:
             if got != want:
                 return Outcome(False, nt, cl, detail={"why": "step %d: allowed write did not produce the buffer's lines" % i, "steps": c["steps"], "file": got, "want": want})
-    return Outcome(True, nt, cl + (["autowrite"] if c.get("aw") else []), key=",".join(c["steps"]) + ("|aw" if c.get("aw") else ""))
+    return Outcome(True, nt, cl + (["autowrite"] if c.get("aw") else []), key=",".join(c["steps"]) + ("|aw" if c.get("aw") else "") + ("|link" if c.get("link") else ""))
 
 
 def run_case(env, c):
@@ -325,7 +330,7 @@ def rnd_case(draw):
 
 
 ghist_case = st.tuples(st.lists(st.sampled_from(["ext", "ext", "wother", "wother", "wother_plain", "edit", "edit", "wown", "wown", "wownf", "leave", "leave", "efail"]),
-                                 min_size=2, max_size=10), st.booleans()).map(lambda t: {"kind": "ghist", "steps": t[0], "aw": t[1]})
+                                 min_size=2, max_size=10), st.booleans(), st.integers(0, 3)).map(lambda t: {"kind": "ghist", "steps": t[0], "aw": t[1], "link": t[2] == 0})
 
 
 def strategy(tier):
